@@ -93,10 +93,11 @@ func init() {
 		Level:       "Sound static check of the structural clauses (cannot panic; registered claims overlaid last; sibling codec agreement; AES bounds and symmetry). Round-trip equality of values is not decided.",
 		Note:        "Trusted: go/types+go/cfg, compiler bounds report, encoding/json.",
 		Technique:   "static analysis: panic-site and nil-flow rules over the typed AST, sibling-agreement table from go/types, must-facts dataflow for ordering",
-		Rules:       []string{"E1", "E4.R-assert", "E4.R-recursion", "E3.N1"},
+		Rules:       []string{"E1", "E4.R-assert", "E4.R-recursion", "E3.N1", "E8.R-marshal-value"},
 		Run: func(c *Ctx) {
 			RunE1(c, "C12", obs)
 			RunClaimsCodecSiblings(c)
+			RunMarshalByValue(c, []string{"oidc", "op", "client", "client/rp", "client/rs", "client/profile", "client/tokenexchange", "http", "crypto"})
 			RunE1(c, "", nullRejectingObs())
 			nr := map[string]bool{"oidc.ParseToken": true, "http.HttpRequest": true}
 			for _, f := range c.R.Findings {
